@@ -72,14 +72,15 @@ func main() {
 }
 
 type harnessResult struct {
-	Spec     symgo.HarnessSpec
-	File     *symgo.HarnessFile
-	X        *symgo.Explorer
-	Wall     time.Duration
-	Err      string
-	Missing  []string
-	Confirm  map[*symgo.Violation]string // violation -> "confirmed" | reason
-	Replayed int
+	Spec       symgo.HarnessSpec
+	File       *symgo.HarnessFile
+	X          *symgo.Explorer
+	Wall       time.Duration
+	Err        string
+	Missing    []string
+	Confirm    map[*symgo.Violation]string // violation -> "confirmed" | reason
+	Replayed   int
+	CrossCheck string
 }
 
 func cmdCheck(args []string) int {
@@ -93,6 +94,7 @@ func cmdCheck(args []string) int {
 	solver := fs.String("solver", "cvc5", "z3|z3-new|cvc5")
 	noEvidence := fs.Bool("no-evidence", false, "do not write the evidence file")
 	trace := fs.Bool("trace", false, "collect per-function query statistics")
+	crossCheck := fs.Bool("crosscheck", true, "thorough tier: re-run every harness with the other solver and compare")
 	deadline := fs.Duration("deadline", 0, "wall-clock budget per harness (default: quick 8m, thorough 45m)")
 	fs.Parse(args)
 	if *prop == "" {
@@ -210,6 +212,40 @@ func cmdCheck(args []string) int {
 				hr.Err = err.Error()
 			}
 			hr.Wall = time.Since(h0)
+			// thorough tier: the whole harness is explored a second time with the other solver as the primary
+			// back end; path structure, verdicts and violated labels must agree
+			if thorough && *crossCheck && hr.Err == "" {
+				cfg2 := cfg
+				cfg2.Solver, cfg2.Fallback = "z3", "cvc5"
+				if cfg.Solver == "z3" {
+					cfg2.Solver, cfg2.Fallback = "cvc5", "z3"
+				}
+				x2 := symgo.NewExplorer(ld.Prog, entry, cfg2)
+				x2.NoPanic, x2.Thorough, x2.Expect = x.NoPanic, x.Thorough, x.Expect
+				for _, other := range hfs {
+					if other.PkgPath != hf.PkgPath {
+						continue
+					}
+					for from, to := range other.Overrides {
+						x2.SetOverride(from, pkg.Func(to))
+					}
+				}
+				if err := x2.Run(); err != nil {
+					hr.Err = "cross-check run: " + err.Error()
+				} else {
+					a, b := x.Stats, x2.Stats
+					same := a.Completed == b.Completed && a.Panicked == b.Panicked && a.VCs == b.VCs && a.VCUnsat+a.VCConst == b.VCUnsat+b.VCConst && len(x.ViolationCounts()) == len(x2.ViolationCounts())
+					for k := range x.ViolationCounts() {
+						if x2.ViolationCounts()[k] == 0 {
+							same = false
+						}
+					}
+					hr.CrossCheck = fmt.Sprintf("%s vs %s: completed %d/%d vcs %d/%d discharged %d/%d", cfg.Solver, cfg2.Solver, a.Completed, b.Completed, a.VCs, b.VCs, a.VCUnsat+a.VCConst, b.VCUnsat+b.VCConst)
+					if !same && len(x2.Inconcl) == 0 && len(x.Inconcl) == 0 {
+						hr.Err = "solvers disagree: " + hr.CrossCheck
+					}
+				}
+			}
 			for _, m := range hs.Reach {
 				if x.ReachCount[m] == 0 {
 					hr.Missing = append(hr.Missing, m)
@@ -761,7 +797,7 @@ func writeEvidence(prop, tier string, seed int, results []*harnessResult, traces
 		harnesses = append(harnesses, map[string]interface{}{
 			"name": hr.Spec.Name, "package": hr.File.PkgPath, "nopanic": hr.Spec.NoPanic,
 			"paths_completed": st.Completed, "paths_panicked": st.Panicked, "paths_infeasible": st.Infeasible, "paths_inconclusive": st.Inconclusive,
-			"vcs": st.VCs, "instructions": st.Instrs, "wall_s": round(hr.Wall.Seconds()), "reach": reach, "overrides": hr.File.Overrides,
+			"vcs": st.VCs, "cross_solver_check": hr.CrossCheck, "if_conversions": st.IfConv, "range_pruned_branches": st.RangePruned, "fallback_queries": st.Fallbacks, "instructions": st.Instrs, "wall_s": round(hr.Wall.Seconds()), "reach": reach, "overrides": hr.File.Overrides,
 		})
 		labels := make([]string, 0)
 		for l := range hr.X.Reached {
